@@ -17,6 +17,8 @@ func init() {
 }
 
 func runC11(e *Engine, r *Report) {
+	// borrowed mechanism (round 9): a replica streams its on-disk state only once its applied index has caught up with what Open() reported (C08): otherwise the receiver is handed entries its installed state already contains
+	borrow(e, r, "C08", "GD-ready-to-stream")
 	smMu := r.needField("internal/rsm", "StateMachine", "mu")
 	nsMu := r.needField("internal/rsm", "NativeSM", "mu")
 	if smMu == nil || nsMu == nil {
